@@ -548,7 +548,35 @@ def dataflow_analysis_attached(module_or_routine):
         yield module_or_routine
 
 
-class FindReads(Visitor):
+class _AssociateResolver:
+    """
+    Mixin for :any:`FindReads` and :any:`FindWrites` that expresses reads and
+    writes of associate names inside :any:`Associate` blocks in terms of the
+    selectors, which is how these symbols are known outside of the block.
+    """
+
+    _associations = ()
+
+    def _resolve_associates(self, symbols, written=False):
+        for assoc_map in reversed(self._associations):
+            resolved = OrderedSet()
+            for s in symbols:
+                if s.name not in assoc_map:
+                    resolved.add(s)
+                elif not written:
+                    resolved |= {v.clone(dimensions=None) for v in FindVariables().visit(assoc_map[s.name])}
+                elif hasattr(assoc_map[s.name], 'clone'):
+                    resolved.add(assoc_map[s.name].clone(dimensions=None))
+            symbols = resolved
+        return symbols
+
+    def visit_Associate(self, o, **kwargs):
+        self._associations += (CaseInsensitiveDict((v.name, k) for k, v in o.associations),)
+        self.visit(o.children, **kwargs)
+        self._associations = self._associations[:-1]
+
+
+class FindReads(_AssociateResolver, Visitor):
     """
     Look for reads in a specified part of a control flow tree.
 
@@ -586,6 +614,7 @@ class FindReads(Visitor):
         return {v.clone(dimensions=None) for v in FindVariables().visit(expr)}
 
     def _register_reads(self, read_symbols):
+        read_symbols = self._resolve_associates(read_symbols)
         if self.active:
             if self.candidate_set is None:
                 self.reads |= read_symbols
@@ -593,6 +622,7 @@ class FindReads(Visitor):
                 self.reads |= read_symbols & self.candidate_set
 
     def _register_writes(self, write_symbols):
+        write_symbols = self._resolve_associates(write_symbols, written=True)
         if self.active and self.clear_candidates_on_write and self.candidate_set is not None:
             self.candidate_set -= write_symbols
 
@@ -653,7 +683,7 @@ class FindReads(Visitor):
         self._visit_branches((o.children, ()), **kwargs)
 
 
-class FindWrites(Visitor):
+class FindWrites(_AssociateResolver, Visitor):
     """
     Look for writes in a specified part of a control flow tree.
 
@@ -688,6 +718,7 @@ class FindWrites(Visitor):
         return {v.clone(dimensions=None) for v in FindVariables().visit(expr)}
 
     def _register_writes(self, write_symbols):
+        write_symbols = self._resolve_associates(write_symbols, written=True)
         if self.candidate_set is None:
             self.writes |= write_symbols
         else:
